@@ -572,7 +572,7 @@ pub trait ReadVolatile: Sized {
     spec fn pos(&self) -> int;
     fn read_volatile<B: BitmapSlice>(&mut self, buf: &mut VolatileSlice<B>) -> (r: Result<usize>)
         requires old(buf).wf(), // [C01]
-            old(self).accepts(*old(buf)), // [C01,C04,C03,C14]
+            old(self).accepts(*old(buf)), // [C01,C04,C03,C14,C05,C16]
         ensures *final(buf) == *old(buf),
             r matches Ok(n) ==> final(self).pos() == old(self).pos() + n,
             // a call that reports an error has delivered nothing (POSIX: EINTR only before any transfer)
@@ -636,7 +636,7 @@ pub trait WriteVolatile: Sized {
     spec fn pos(&self) -> int;
     fn write_volatile<B: BitmapSlice>(&mut self, buf: &VolatileSlice<B>) -> (r: Result<usize>)
         requires buf.wf(), // [C01]
-            old(self).accepts(*buf), // [C01,C04,C03,C14]
+            old(self).accepts(*buf), // [C01,C04,C03,C14,C05,C16]
         ensures r matches Ok(n) ==> final(self).pos() == old(self).pos() + n,
             r is Err ==> final(self).pos() == old(self).pos(),
             final(self).retry_ok() == is_eintr(r);
@@ -807,7 +807,7 @@ impl<B: BitmapSlice> VolatileSlice<'_, B> {
 //@sub std::io::ErrorKind:: => ErrorKind::
 //@spec
     requires self.wf(),
-        forall|st: F, s: VolatileSlice<B>| #![trigger st.accepts(s)] s.is_sub(self, addr as int, (if count <= self.size - addr { count as int } else { self.size - addr })) ==> st.accepts(s), // [C01,C04,C03]
+        forall|st: F, s: VolatileSlice<B>| #![trigger st.accepts(s)] s.is_sub(self, addr as int, (if count <= self.size - addr { count as int } else { self.size - addr })) ==> st.accepts(s), // [C01,C04,C03,C05,C16]
     ensures addr > self.size ==> r is Err, // [C01,C04]
         addr <= self.size ==> !is_eintr(r), // [C14]
         r matches Ok(n) ==> final(src).pos() == old(src).pos() + n, // [C14]
@@ -833,7 +833,7 @@ impl<B: BitmapSlice> VolatileSlice<'_, B> {
 //@sub std::io::ErrorKind:: => ErrorKind::
 //@spec
     requires self.wf(),
-        forall|st: F, s: VolatileSlice<B>| #![trigger st.accepts(s)] s.is_sub(self, addr as int, (if count <= self.size - addr { count as int } else { self.size - addr })) ==> st.accepts(s), // [C01,C04,C03]
+        forall|st: F, s: VolatileSlice<B>| #![trigger st.accepts(s)] s.is_sub(self, addr as int, (if count <= self.size - addr { count as int } else { self.size - addr })) ==> st.accepts(s), // [C01,C04,C03,C05,C16]
     ensures addr > self.size ==> r is Err, // [C01,C04]
         addr <= self.size ==> !is_eintr(r), // [C14]
         r matches Ok(n) ==> final(dst).pos() == old(dst).pos() + n, // [C14]
@@ -855,7 +855,7 @@ impl<B: BitmapSlice> VolatileSlice<'_, B> {
 //@spec
     requires self.wf(),
         forall|st: F, w: VolatileSlice<B>, s: VolatileSlice<B>| #![trigger st.accepts(s), self.vm_sub(&w, addr as int, count as int)] self.vm_sub(&w, addr as int, count as int)
-            && s.is_sub(&w, st.pos() - old(src).pos(), count - (st.pos() - old(src).pos())) ==> st.accepts(s), // [C14,C01,C04]
+            && s.is_sub(&w, st.pos() - old(src).pos(), count - (st.pos() - old(src).pos())) ==> st.accepts(s), // [C14,C01,C04,C05,C16]
     ensures addr + count > self.size ==> r is Err, // [C01,C04]
         r is Ok ==> final(src).pos() == old(src).pos() + count, // [C14]
         count == 0 && addr <= self.size ==> r is Ok && final(src).pos() == old(src).pos(), // [C18]
@@ -866,7 +866,7 @@ impl<B: BitmapSlice> VolatileSlice<'_, B> {
 //@spec
     requires self.wf(),
         forall|st: F, w: VolatileSlice<B>, s: VolatileSlice<B>| #![trigger st.accepts(s), self.vm_sub(&w, addr as int, count as int)] self.vm_sub(&w, addr as int, count as int)
-            && s.is_sub(&w, st.pos() - old(dst).pos(), count - (st.pos() - old(dst).pos())) ==> st.accepts(s), // [C14,C01,C04]
+            && s.is_sub(&w, st.pos() - old(dst).pos(), count - (st.pos() - old(dst).pos())) ==> st.accepts(s), // [C14,C01,C04,C05,C16]
     ensures addr + count > self.size ==> r is Err, // [C01,C04]
         r is Ok ==> final(dst).pos() == old(dst).pos() + count, // [C14]
         count == 0 && addr <= self.size ==> r is Ok && final(dst).pos() == old(dst).pos(), // [C18]
@@ -1154,6 +1154,30 @@ impl<B: Bitmap> GuestRegionMmap<B> {
 //@end
 //@endfn
 
+// the region's own address validation and the raw host address it hands out
+//@fn src/guest_memory.rs :: pub trait GuestMemoryRegion :: address_in_range :: tags=C02,C01,C07 :: id=guest_memory::GuestMemoryRegion::address_in_range(mmap)
+//@spec
+    ensures r == (addr.0 < self.s_len()), // [C02,C01]
+//@end
+//@endfn
+//@fn src/guest_memory.rs :: pub trait GuestMemoryRegion :: check_address :: tags=C02,C01,C07 :: id=guest_memory::GuestMemoryRegion::check_address(mmap)
+//@spec
+    ensures r == (if addr.0 < self.s_len() { Some(addr) } else { None::<MemoryRegionAddress> }), // [C02,C01]
+//@end
+//@endfn
+//@fn src/mmap/mod.rs :: impl<B: Bitmap> GuestMemoryRegion for GuestRegionMmap<B> :: get_host_address :: tags=C01,C02,C07
+//@sub guest_memory::Result< => GmResult<
+//@sub guest_memory::Error:: => GmError::
+//@sub \.map\(\|addr\| \{ => .map(|addr: MemoryRegionAddress| -> (q: Ptr) requires addr.0 < self.s_len(), self.wf() ensures q.a == self.mapping.addr.a + addr.0, q.lo == self.mapping.addr.lo, q.hi == self.mapping.addr.hi {
+//@spec
+    requires self.wf(),
+    ensures
+        // a host address is handed out exactly for offsets inside the region, and it is that byte of the mapping
+        (r is Ok) == (addr.0 < self.s_len()), // [C01,C02]
+        r matches Ok(p) ==> p.a == self.mapping.addr.a + addr.0 && p.valid_for(1) && p.lo == self.mapping.addr.lo && p.hi == self.mapping.addr.hi, // [C01]
+//@end
+//@endfn
+
 //@fn src/mmap/mod.rs :: impl<B: Bitmap> Bytes<MemoryRegionAddress> for GuestRegionMmap<B> :: write :: tags=C03,C04,C07,C18 :: id=mod::GuestRegionMmap::Bytes::write
 //@sub guest_memory::Result< => GmResult<
 //@sub \.map_err\(Into::into\) => .map_err(|e: Error| -> (q: GmError) ensures q == gm_from(e) { gm_error_from(e) })
@@ -1174,6 +1198,56 @@ impl<B: Bitmap> GuestRegionMmap<B> {
         old(buf)@.len() == 0 ==> r == Ok::<usize, GmError>(0), // [C18]
         old(buf)@.len() > 0 && addr.0 >= self.s_len() ==> r is Err, // [C03,C04]
         old(buf)@.len() > 0 && addr.0 < self.s_len() ==> r == Ok::<usize, GmError>(if old(buf)@.len() <= self.s_len() - addr.0 { old(buf)@.len() as usize } else { (self.s_len() - addr.0) as usize }), // [C03,C04]
+//@end
+//@endfn
+//@fn src/mmap/mod.rs :: impl<B: Bitmap> Bytes<MemoryRegionAddress> for GuestRegionMmap<B> :: read_volatile_from :: tags=C03,C04,C07,C14,C18,C01 :: id=mod::GuestRegionMmap::Bytes::read_volatile_from
+//@sub Result<usize, Self::E> => GmResult<usize>
+//@sub \.map_err\(Into::into\) => .map_err(|e: Error| -> (q: GmError) ensures q == gm_from(e) { gm_error_from(e) })
+//@spec
+    requires self.wf(),
+        // the stream is handed exactly the window [addr, addr + min(count, rest of the region)) of the region's slice
+        forall|st: F, w: VolatileSlice<B::S>, s: VolatileSlice<B::S>| #![trigger st.accepts(s), self.mapping.vm_sub(&w, 0, self.s_len())]
+            self.mapping.vm_sub(&w, 0, self.s_len()) && s.is_sub(&w, addr.0 as int, (if count <= self.s_len() - addr.0 { count as int } else { self.s_len() - addr.0 })) ==> st.accepts(s), // [C01,C04,C03,C05]
+    ensures addr.0 > self.s_len() ==> r is Err, // [C03,C04]
+        r matches Ok(n) ==> final(src).pos() == old(src).pos() + n, // [C14,C03]
+//@end
+//@endfn
+//@fn src/mmap/mod.rs :: impl<B: Bitmap> Bytes<MemoryRegionAddress> for GuestRegionMmap<B> :: write_volatile_to :: tags=C03,C04,C07,C14,C18,C01 :: id=mod::GuestRegionMmap::Bytes::write_volatile_to
+//@sub Result<usize, Self::E> => GmResult<usize>
+//@sub \.map_err\(Into::into\) => .map_err(|e: Error| -> (q: GmError) ensures q == gm_from(e) { gm_error_from(e) })
+//@spec
+    requires self.wf(),
+        // the stream is handed exactly the window [addr, addr + min(count, rest of the region)) of the region's slice
+        forall|st: F, w: VolatileSlice<B::S>, s: VolatileSlice<B::S>| #![trigger st.accepts(s), self.mapping.vm_sub(&w, 0, self.s_len())]
+            self.mapping.vm_sub(&w, 0, self.s_len()) && s.is_sub(&w, addr.0 as int, (if count <= self.s_len() - addr.0 { count as int } else { self.s_len() - addr.0 })) ==> st.accepts(s), // [C01,C04,C03,C05]
+    ensures addr.0 > self.s_len() ==> r is Err, // [C03,C04]
+        r matches Ok(n) ==> final(dst).pos() == old(dst).pos() + n, // [C14,C03]
+//@end
+//@endfn
+//@fn src/mmap/mod.rs :: impl<B: Bitmap> Bytes<MemoryRegionAddress> for GuestRegionMmap<B> :: read_exact_volatile_from :: tags=C03,C04,C07,C14,C18,C01 :: id=mod::GuestRegionMmap::Bytes::read_exact_volatile_from
+//@sub Result<\(\), Self::E> => GmResult<()>
+//@sub \.map_err\(Into::into\) => .map_err(|e: Error| -> (q: GmError) ensures q == gm_from(e) { gm_error_from(e) })
+//@spec
+    requires self.wf(),
+        forall|st: F, w0: VolatileSlice<B::S>, w: VolatileSlice<B::S>, s: VolatileSlice<B::S>| #![trigger st.accepts(s), self.mapping.vm_sub(&w0, 0, self.s_len()), w0.vm_sub(&w, addr.0 as int, count as int)]
+            self.mapping.vm_sub(&w0, 0, self.s_len()) && w0.vm_sub(&w, addr.0 as int, count as int)
+            && s.is_sub(&w, st.pos() - old(src).pos(), count - (st.pos() - old(src).pos())) ==> st.accepts(s), // [C14,C01,C04,C05]
+    ensures addr.0 + count > self.s_len() ==> r is Err, // [C03,C04]
+        r is Ok ==> final(src).pos() == old(src).pos() + count, // [C14,C03]
+        count == 0 && addr.0 <= self.s_len() ==> r is Ok && final(src).pos() == old(src).pos(), // [C18]
+//@end
+//@endfn
+//@fn src/mmap/mod.rs :: impl<B: Bitmap> Bytes<MemoryRegionAddress> for GuestRegionMmap<B> :: write_all_volatile_to :: tags=C03,C04,C07,C14,C18,C01 :: id=mod::GuestRegionMmap::Bytes::write_all_volatile_to
+//@sub Result<\(\), Self::E> => GmResult<()>
+//@sub \.map_err\(Into::into\) => .map_err(|e: Error| -> (q: GmError) ensures q == gm_from(e) { gm_error_from(e) })
+//@spec
+    requires self.wf(),
+        forall|st: F, w0: VolatileSlice<B::S>, w: VolatileSlice<B::S>, s: VolatileSlice<B::S>| #![trigger st.accepts(s), self.mapping.vm_sub(&w0, 0, self.s_len()), w0.vm_sub(&w, addr.0 as int, count as int)]
+            self.mapping.vm_sub(&w0, 0, self.s_len()) && w0.vm_sub(&w, addr.0 as int, count as int)
+            && s.is_sub(&w, st.pos() - old(dst).pos(), count - (st.pos() - old(dst).pos())) ==> st.accepts(s), // [C14,C01,C04,C05]
+    ensures addr.0 + count > self.s_len() ==> r is Err, // [C03,C04]
+        r is Ok ==> final(dst).pos() == old(dst).pos() + count, // [C14,C03]
+        count == 0 && addr.0 <= self.s_len() ==> r is Ok && final(dst).pos() == old(dst).pos(), // [C18]
 //@end
 //@endfn
 //@fn src/mmap/mod.rs :: impl<B: Bitmap> Bytes<MemoryRegionAddress> for GuestRegionMmap<B> :: write_slice :: tags=C03,C04,C07,C18 :: id=mod::GuestRegionMmap::Bytes::write_slice
